@@ -1,6 +1,8 @@
 \* deviation EncloseTruncates: a 256 byte payload behind a one byte length field.
 \* RoundTripModuloKnown holds; the strict variant (RoundTrip) must be violated.
 CONSTANTS
+  FixExtractOverflow = TRUE
+  FixFramerError = TRUE
   Lfls = {1}
   HostLfls = {1}
   Endians = {TRUE, FALSE}
